@@ -29,7 +29,7 @@ type RangeRec struct {
 	// Path the range is reported for ("" = the path of the query)
 	Path string
 	Tag  string
-	R   hcl.Range
+	R    hcl.Range
 	// IsPos: only Start is meaningful (an hcl.Pos field)
 	IsPos bool
 }
